@@ -17,5 +17,8 @@ let eval ?(kill_timeout = false) (prev : state) (op : op) (r : result) (next : s
     ("retained", BackendSpec.retained_ok prev op r next && BackendSpec.retained_wf next);
     ("replay", BackendSpec.replay_ok prev op r next);
     ("handover", BackendC13.handover_ok prev op r next);
-    (* C13 uniqueness invariant: stated for histories without kill timeout *)
+    (* backend side of C08 *)
+    ("offline_queue", BackendC08.offline_queue_ok prev op r next);
+    ("session_present", BackendC08.session_present_ok prev op r next);
+    (* C13 uniqueness invariant: stated for histories without kill timeout and without backend Close *)
     ("unique", kill_timeout || BackendC13.unique_ok next) ]
